@@ -36,6 +36,9 @@ def run(ctx):
     fallback_tag_part(ctx)
     for f in ctx.known():
         ctx.witness(f)
+    # what one template leaves behind (rejected templates, templates with options of their own) does not reach another
+    from .. import isolation
+    ctx.replays += isolation.run(ctx, "on-error")
     ctx.exhaustive = True
     ctx.rule = ("chains of <=3 nested elements, each with/without tal:on-error and one of plain/omit-tag/omit-tag expr/"
                 "repeat/define/tal:block, fallback const/call/structure/error-fields; every subset of the 2 raising "
